@@ -313,7 +313,7 @@ _co('diurnal_path_horizon', lambda g: (None, [g.ang(-40, 40), g.ang(-40, 40)], {
 
 
 def _refr(g):
-    a = [g.ang(1, 89)]
+    a = [g.ang(-30, 89)]      # below the horizon too: any elevation is a documented input
     r = g.rng.random()
     if r < 0.5:
         return None, a, {}
